@@ -271,7 +271,6 @@ type node struct {
 	alt int
 	// sched node
 	enabled   []string
-	pending   map[string]opinfo
 	backtrack map[string]bool
 	done      map[string]bool
 	sleep     map[string]bool
@@ -315,6 +314,7 @@ type dporStrat struct {
 	dataDev   int
 	choices   []int
 	ns        []int
+	byObj     map[interface{}][]int // stack indices of the executed transitions on each shim object (current execution)
 }
 
 func (d *dporStrat) prevSched(from int) *node {
@@ -375,15 +375,17 @@ func (d *dporStrat) PickSched(view []vsched.GView, enabled []string, lastClock i
 		if nd.data {
 			panic("explore: diverging replay at a sched node")
 		}
-		nd.pending = pending
 		nd.op = pending[nd.chosen]
+		if nd.op.obj != nil {
+			d.byObj[nd.op.obj] = append(d.byObj[nd.op.obj], d.depth)
+		}
 		d.lastSched = d.depth
 		d.depth++
 		k := idxOf(nd.chosen)
 		record(k)
 		return k, false
 	}
-	nd := &node{enabled: enabled, pending: pending, backtrack: map[string]bool{}, done: map[string]bool{}, sleep: map[string]bool{}}
+	nd := &node{enabled: enabled, backtrack: map[string]bool{}, done: map[string]bool{}, sleep: map[string]bool{}}
 	if par := d.prevSched(d.depth - 1); par != nil {
 		for x := range par.sleep {
 			if x != par.chosen {
@@ -400,19 +402,26 @@ func (d *dporStrat) PickSched(view []vsched.GView, enabled []string, lastClock i
 			}
 		}
 	}
-	// race detection / backtrack point insertion
+	// race detection / backtrack point insertion, incremental: at a state reached by executing transition
+	// t of goroutine g, (a) g's new pending operation is compared with the whole history on its object, and
+	// (c) every other goroutine's (unchanged) pending operation is compared with t only — older
+	// transitions were compared with it when they were executed.
+	vcOf := map[string]vsched.VC{}
 	for _, g := range view {
-		p := g.ID
-		op := pending[p]
-		if op.obj == nil {
-			continue
-		}
-		for i := d.depth - 1; i >= 0; i-- {
+		vcOf[g.ID] = g.VC
+	}
+	race := func(p string, op opinfo, cands []int) {
+		gvc := vcOf[p]
+		for ci := len(cands) - 1; ci >= 0; ci-- {
+			i := cands[ci]
+			if i >= d.depth {
+				continue
+			}
 			t := d.stack[i]
 			if t.data || t.chosen == p || !dependent(t.op, op) {
 				continue
 			}
-			if t.clock <= g.VC[t.chosen] {
+			if t.clock <= gvc[t.chosen] {
 				continue // happens-before p's next transition
 			}
 			// co-enabledness: p could not run at pre(i) -> nothing to reverse here
@@ -420,6 +429,7 @@ func (d *dporStrat) PickSched(view []vsched.GView, enabled []string, lastClock i
 			for _, x := range t.enabled {
 				if x == p {
 					pThere = true
+					break
 				}
 			}
 			if !pThere {
@@ -433,7 +443,7 @@ func (d *dporStrat) PickSched(view []vsched.GView, enabled []string, lastClock i
 				}
 				for j := i + 1; j < d.depth; j++ {
 					tj := d.stack[j]
-					if !tj.data && tj.chosen == x && tj.clock <= g.VC[x] {
+					if !tj.data && tj.chosen == x && tj.clock <= gvc[x] {
 						E = append(E, x)
 						break
 					}
@@ -452,7 +462,20 @@ func (d *dporStrat) PickSched(view []vsched.GView, enabled []string, lastClock i
 					t.backtrack[x] = true
 				}
 			}
-			break
+			return
+		}
+	}
+	if d.lastSched >= 0 {
+		t := d.stack[d.lastSched]
+		if op, ok := pending[t.chosen]; ok && op.obj != nil {
+			race(t.chosen, op, d.byObj[op.obj]) // (a)
+		}
+		if t.op.obj != nil {
+			for _, g := range view { // (c)
+				if g.ID != t.chosen && g.Obj == t.op.obj {
+					race(g.ID, pending[g.ID], []int{d.lastSched})
+				}
+			}
 		}
 	}
 	var cands []string
@@ -470,6 +493,9 @@ func (d *dporStrat) PickSched(view []vsched.GView, enabled []string, lastClock i
 	nd.backtrack[pick] = true
 	nd.done[pick] = true
 	nd.op = pending[pick]
+	if nd.op.obj != nil {
+		d.byObj[nd.op.obj] = append(d.byObj[nd.op.obj], d.depth)
+	}
 	d.stack = append(d.stack, nd)
 	d.lastSched = d.depth
 	d.depth++
@@ -484,10 +510,15 @@ func (d *dporStrat) PickSched(view []vsched.GView, enabled []string, lastClock i
 func DPOR(body func() string, opt Options) *Stats {
 	st := newStats("dpor")
 	t0 := time.Now()
+	if opt.Deadline > 0 {
+		vsched.Deadline = t0.Add(opt.Deadline + opt.Deadline/4)
+		defer func() { vsched.Deadline = time.Time{} }()
+	}
 	d := &dporStrat{st: st, opt: opt}
 	for {
 		d.depth, d.lastSched, d.dataDev = 0, -1, 0
 		d.choices, d.ns = nil, nil
+		d.byObj = map[interface{}][]int{}
 		before := len(d.stack)
 		var obs string
 		s := vsched.Run(func() { obs = body() }, d)
@@ -500,7 +531,7 @@ func DPOR(body func() string, opt Options) *Stats {
 			x.Panic = s.Panics[0]
 		}
 		if s.HitLimit {
-			st.Cap = "step horizon reached in one execution"
+			st.Cap = "step horizon or time cap reached inside one execution"
 		}
 		st.add(x)
 		st.NewStates += int64(len(d.stack)-before) + 1
